@@ -200,10 +200,10 @@ def Stmt.checkFails (s : Stmt) : ArgCheck → Bool
 def TypingTable.find (tbl : TypingTable) (k : Kind) (v : Variant) : Option TypingEntry :=
   tbl.find? (fun e => e.kind == k && e.variant == v)
 
-def errOfKind : Kind → Variant → TypeErr
+def errOfKind (last : DataType) : Kind → Variant → TypeErr
   | .V, _ => .startNotFirst | .E, _ => .startNotFirst
   | .unknown, _ => .unknownStatement
-  | .select, .len0 => .emptyArgs
+  | .select, .len0 => if last.isElement then .emptyArgs else .badLastType
   | _, _ => .badLastType
 
 def errOfCheck : ArgCheck → TypeErr
@@ -218,7 +218,7 @@ def typeStepT (tbl : TypingTable) (st : TState) (s : Stmt) : Except TypeErr TSta
   | some e =>
     match e.res[st.last.idx]? with
     | none => .error .tableBroken
-    | some .err => .error (errOfKind s.kind s.variant)
+    | some .err => .error (errOfKind st.last s.kind s.variant)
     | some r =>
       match e.checks.find? s.checkFails with
       | some c => .error (errOfCheck c)
